@@ -618,6 +618,10 @@ func runC08(c *Ctx) {
 // ---------------------------------------------------------------- C09
 
 func runC09(c *Ctx) {
+	// the same, end to end: controller reviews as an API server sends them (also one newer than this build: fields it does
+	// not know) through the webhook handler; the answer must carry what the library reports for the typed object
+	ns, newAdm := webhookFixture()
+	webhookMixed(c, sizes(c, 320, 6000), "ctl", ns, newAdm)
 	n := sizes(c, 3000, 60000)
 	k := AdmitKnobs{Kind: "ctl", FaultPct: 5, SynPct: 40, SubPct: 10}
 	admitSweep(c, n, k, "allowed code warnings audit ann evalCalls metrics", "allowed code nwarnings auditPresence", func(a *AdmitCase, g AdmitOut) {
